@@ -4,6 +4,7 @@ go 1.22.12
 
 require (
 	ariga.io/atlas v0.0.0
+	github.com/hashicorp/hcl/v2 v2.13.0
 	github.com/mattn/go-sqlite3 v1.14.24
 )
 
@@ -14,7 +15,6 @@ require (
 	github.com/bmatcuk/doublestar v1.3.4 // indirect
 	github.com/go-openapi/inflect v0.19.0 // indirect
 	github.com/google/go-cmp v0.6.0 // indirect
-	github.com/hashicorp/hcl/v2 v2.13.0 // indirect
 	github.com/mitchellh/go-wordwrap v0.0.0-20150314170334-ad45545899c7 // indirect
 	github.com/zclconf/go-cty v1.14.4 // indirect
 	github.com/zclconf/go-cty-yaml v1.1.0 // indirect
